@@ -244,14 +244,16 @@ class C03(Check):
         @given(st.lists(nested(3), min_size=8, max_size=8),
                st.lists(st.text(alphabet=ALPHA, min_size=4, max_size=8), min_size=6, max_size=6))
         def prop(exprs, longer):
-            if runner.time_left() < 0:
-                res.truncated = True
+            if runner.over_budget(res):     # (no draws inside this body)
                 return
             rules = list(HELPERS) + [('rule', 'X%03d' % j, None, e) for j, e in enumerate(exprs)]
             rules.append(('rule', 'start', None, ('ref', 'X000')))
             g = peg.G(rules)
             self.eval_grammar(res, g, [('X%03d' % j, 'hyp') for j in range(len(exprs))], inputs + longer)
-        prop()
+        try:
+            prop()
+        except runner.StopTask:
+            pass
 
     def replay(self, case):
         g = peg.g_from_dict(case['g'])
